@@ -432,6 +432,43 @@ Proof.
   exists dst'. destruct (V f Hf) as [_ V2]. split; [|exact HH].
   cbn in B. rewrite B. rewrite <- (app_nil_r bs). apply (V2 a ty fs eq_refl).
 Qed.
+(* ---- streams: n values written one after the other with one encoder (its tables persisting),
+        read one after the other with one decoder ---- *)
+Fixpoint read_n (f n : nat) (dst : dstate) (bs : bytes) : dres (list dval) :=
+  match n with
+  | O => Ok ([], bs, dst)
+  | S n' => do (x, d1) <- R_rd (readers_at te tm f) dst bs ;; let '(v, r) := x in
+            do (y, d2) <- read_n f n' d1 r ;; let '(vs, r2) := y in Ok (v :: vs, r2, d2)
+  end.
+Definition top_ok (v : gval) : Prop := exists a ty fs, v = VStruct a ty fs /\ sgv (TPtr (TStruct ty)) v.
+Theorem stream_roundtrip : forall vs st st', Forall top_ok vs ->
+  enm st = nm -> cls_ok F (ecls st) -> write_items vs st = Ok st' ->
+  cls_ok F (ecls st') /\ enm st' = enm st /\ grows st st' /\
+  exists bs ds cells, ebytes st' = ebytes st ++ bs /\ dgs (erefs st) vs ds cells (erefs st') /\
+    (small st' -> forall dst rest, Inv st dst ->
+       exists dst', Inv st' dst' /\ dheap dst' = dheap dst ++ cells /\
+       forall f, (need_ditems vs <= f)%nat -> read_n f (length vs) dst (bs ++ rest) = Ok (ds, rest, dst')).
+Proof.
+  induction vs as [|v r IH]; intros st st' HT En C W.
+  - cbn in W. inversion W; subst st'. split; [exact C|]. split; [reflexivity|]. split; [apply grows_refl|].
+    exists [], [], []. split; [rewrite app_nil_r; reflexivity|]. split; [constructor|].
+    intros _ dst rest I. exists dst. split; [exact I|]. split; [rewrite app_nil_r; reflexivity|]. intros f _. reflexivity.
+  - inversion HT as [|? ? (a & ty & fs & EV & Sv) Hr]; subst.
+    cbn [write_items] in W. destruct (write_data (VStruct a ty fs) st) as [s1| | |] eqn:E1; try discriminate.
+    destruct (graph_roundtrip _ _ st s1 En Sv C E1) as (C1 & N1 & G1 & b1 & d1 & c1 & B1 & D1 & P1).
+    assert (En1 : enm s1 = nm) by (rewrite N1; exact En).
+    destruct (IH s1 st' Hr En1 C1 W) as (C2 & N2 & G2 & b2 & ds & c2 & B2 & D2 & P2).
+    split; [exact C2|]. split; [rewrite N2; exact N1|]. split; [eapply grows_trans; eassumption|].
+    exists (b1 ++ b2), (d1 :: ds), (c1 ++ c2). split; [rewrite B2, B1, <- app_assoc; reflexivity|].
+    split; [econstructor; eassumption|].
+    intros Sm dst rest I.
+    destruct (P1 (small_back _ _ G2 Sm) dst (b2 ++ rest) I) as (dst1 & I1 & H1 & _ & V1).
+    destruct (P2 Sm dst1 rest I1) as (dst2 & I2 & H2' & V2).
+    exists dst2. split; [exact I2|]. split; [rewrite H2', H1, <- app_assoc; reflexivity|].
+    intros f Hf. cbn [need_ditems] in Hf. cbn [length read_n]. rewrite <- app_assoc.
+    destruct (V1 f ltac:(lia)) as [_ V1b]. rewrite (V1b a ty fs eq_refl). cbn [bind]. rewrite V2 by lia. reflexivity.
+Qed.
+
 (* ToObject(ToBytes(v)) with the fuel the decoder model gives itself *)
 Theorem graph_decode_encode a ty fs st' :
   sgv (TPtr (TStruct ty)) (VStruct a ty fs) -> write_data (VStruct a ty fs) (estate0 nm) = Ok st' -> small st' ->
